@@ -239,6 +239,52 @@ def random_case(rng, i):
 
 # ---------------------------------------------------------------------------
 
+def open_dev(names):
+    return sorted({e["deviation"] for e in load_known().get("open", [])
+                   if e["property"] == "C16" and e.get("deviation") in names})
+
+
+def replay_case(chk, data):
+    """--replay: re-execute a saved case on the real code, judge it again with the TLA+ trace spec."""
+    fam = data.get("family", "cached_store")
+    chk.impl_traces = 1
+    if fam == "cached_store":
+        runs = Runs(chk)
+        runs.execute(data["cfg"], data["prog"], "replay")
+        verdicts, drifts, _ = validate(runs.traces, as_code_dev(), "C16_replay", parallel=1)
+        judge(chk, runs, verdicts, drifts)
+    elif fam == "policy":
+        name, held = data["policy"], set()
+        p = pol9.make_policy(name, clock=pol9.Clock(), scripted=False, seed=0)
+        for lab in data["calls"]:
+            act, args = tlc.parse_action(lab)
+            if act == "Insert" and args[0] not in held:
+                p.on_insert(pol9.key_name(args[0]))
+                held.add(args[0])
+            elif act == "Access" and args[0] in held:
+                p.on_access(pol9.key_name(args[0]))
+            elif act == "Remove":
+                p.on_remove(pol9.key_name(args[0]))
+                held.discard(args[0])
+            elif act == "Clear":
+                p.clear()
+                held.clear()
+            elif act == "Evict":
+                v = p.evict()
+                held.discard(0 if v is None else pol9.key_num(v))
+            if pol9.tracked(name, p) != held:
+                chk.violation(f"policy_policy_keys:{name}", f"eviction policy {name}: tracked="
+                              f"{sorted(pol9.tracked(name, p))} held={sorted(held)} after {lab}", data)
+                break
+    else:
+        mod = {"soft_ttl": soft, "multi_tier": tiered, "page_cache": pagec}[fam]
+        runs = mod.Runs(chk)
+        runs.execute(data["cfg"], data["prog"], "replay")
+        verdicts, drifts, _ = mod.validate(runs.traces, "C16_replay", open_dev(mod.DEVIATIONS))
+        mod.judge(chk, runs, verdicts, drifts)
+    return chk.finish()
+
+
 def _t(chk, what):
     import os, sys, time
     if os.environ.get("C16_DEBUG"):
@@ -253,12 +299,7 @@ def run(tier, seed, replay=None):
     runs = Runs(chk)
 
     if replay:
-        data = json.loads(open(replay).read())["replay"]
-        runs.execute(data["cfg"], data["prog"], "replay")
-        verdicts, drifts, results = validate(runs.traces, known_dev, "C16_replay", parallel=1)
-        chk.impl_traces = 1
-        judge(chk, runs, verdicts, drifts)
-        return chk.finish()
+        return replay_case(chk, json.loads(open(replay).read())["replay"])
 
     quick = tier == "quick"
     pool = ThreadPoolExecutor(max_workers=6 if quick else 8)
@@ -311,18 +352,18 @@ def run(tier, seed, replay=None):
                        if e["property"] == "C16" and e.get("deviation") in tiered.DEVIATIONS})
 
     # -- 3a. random real executions while TLC runs --------------------------
-    n_rand = 1800 if quick else 30000
+    n_rand = 1350 if quick else 30000
     for i in range(n_rand):
         cfg, prog, regime = random_case(rng, i)
         runs.execute(cfg, prog, f"random:{regime}")
 
-    for i in range(500 if quick else 8000):
+    for i in range(400 if quick else 8000):
         cfg, prog = soft.random_case(rng, i)
         soft_runs.execute(cfg, prog, "random")
-    for i in range(450 if quick else 8000):
+    for i in range(330 if quick else 8000):
         cfg, prog = tiered.random_case(rng, i)
         tier_runs.execute(cfg, prog, "random")
-    for i in range(300 if quick else 6000):
+    for i in range(240 if quick else 6000):
         cfg, prog = pagec.random_case(rng, i)
         pc_runs.execute(cfg, prog, "random")
     _t(chk, f"random executions done: {len(runs.traces)} + soft-ttl {len(soft_runs.traces)} + multi-tier "
@@ -387,7 +428,7 @@ def run(tier, seed, replay=None):
     (gen_wd / "states.dump").unlink(missing_ok=True)
     keys = sorted(terms)
     chk.extra["model_programs_total"] = len(keys)
-    capn = 1000 if quick else 8000
+    capn = 300 if quick else 8000
     if len(keys) > capn:
         keys = rng.sample(keys, capn)
     else:
@@ -425,7 +466,7 @@ def run(tier, seed, replay=None):
     tiered.collect(chk, tier_jobs, tier_runs)
     tier_val = pool.submit(tiered.validate, tier_runs.traces, "C16_mt_trace", tier_dev)
     # -- 3b. validate all recorded executions with the TLA+ trace spec -------
-    nb = 4 if quick else 8
+    nb = 3 if quick else 8
     verdicts, drifts, results = validate(runs.traces, known_dev, "C16_trace",
                                          chunk=(len(runs.traces) + nb - 1) // nb, parallel=nb)
     for r in results:
